@@ -23,6 +23,13 @@ def run_hist(ctx, outdir, seed, n, shards, cfg, mode, threads=1, hang_secs=20, d
         os.remove(f)
     rc, txt = vlib.sh([vlib.bin_path("engine"), "hist", outdir, str(seed), str(n), str(shards), cfg, mode],
                       timeout=3000, env={"QV_THREADS": str(threads), "QV_HANG_SECS": str(hang_secs), **({"QV_DUMP": "1"} if dump and threads == 1 else {})})
+    if rc != 0 and ("aborting" in txt or "panicked" in txt or rc in (134, -6)):
+        # a panic inside the engine that could not be unwound (panic in a destructor) killed the harness process:
+        # that is a failure of the engine on some history of this run, not of the check
+        v = {"index": -1, "violation": "the engine aborted the harness process (non-unwinding panic) in mode " + mode + ": " + txt[-600:],
+             "scenario": f"rerun: QV_THREADS={threads} {vlib.bin_path('engine')} hist {outdir} {seed} {n} {shards} {cfg} {mode}"}
+        return {"histories": 0, "ops": 0, "queries": 0, "executions": 0, "queries_served_without_execution": 0, "nodes": 0, "kinds": {},
+                "n_c01": 1, "n_c03": 0, "n_changeback": 0, "c01": [v], "c03": [], "hangs": []}
     if rc != 0:
         raise vlib.CheckError(f"engine harness failed ({mode},{cfg}):\n" + txt[-2000:])
     return json.loads(txt.strip().splitlines()[-1])
